@@ -12,7 +12,15 @@ associatively with operands at the extremes of every cheap range, plain / parent
 prefix functions, random mixed chains), all under CPU and output-size limits proportional to the input.
 #expr: the translator pins the callable registered for each of the 34 operators (`^` = math.pow, ...) and its size class; coq/C03/
 ExprSize*.v prove that with these classes every intermediate value has at most (bits of the literals) + 1025 * (operators) bits, and
-refute it for an exact integer power (9^64^64..^64, k >= 2 links: more than 3 * 64^k bits)."""
+refute it for an exact integer power (9^64^64..^64, k >= 2 links: more than 3 * 64^k bits).
+Round 4: DEEP SELF-NESTING family (every registered name inside its own argument 0..3, 5..30 levels, directly / through distinct
+templates / through a template handing its argument on; dispatch budget 3 x calls + 4: ArgumentList re-expands an argument on
+every read, a function reading one twice costs 2^depth) and PREPROCESSOR-TAG family (malformed / unterminated / attribute-laden
+noinclude, includeonly, onlyinclude tags followed by runs of 10..2000 words or blanks, under a CPU cap; the worker's parent also
+kills a call that cannot be interrupted from Python by its CPU time).  Translator (vt/gen/c03_static.py): the regexes of pp.py are
+evaluated from the source, pinned, and checked for nested overlapping quantifiers (also on the patterns of the imported module);
+per magic, the number of reads of each args[i] along one control path is at most 1 (allow-list).  Coq: nest_cost r k (k+1 for
+r = 1, >= 2^(k+1) - 1 for r >= 2)."""
 import json
 
 from vt import core
